@@ -54,9 +54,14 @@ Fixpoint rx_all (tbl : list (N * topic)) (ps : list wpkt) : list (option topic) 
 (* ---------------- inbound (the broker as receiver) ---------------- *)
 Inductive rxout := RRoute (t : topic) | RDrop (* not authorised: nothing routed *) | RTerminate.
 
-(* [auth] = ACL verdict for the topic carried by the packet (not consulted for alias-only packets) *)
-Definition rx_step (maxrx : N) (tbl : list (N * topic)) (p : wpkt) (auth : bool)
-  : list (N * topic) * rxout :=
+(* [auth] = ACL verdict for the topic carried by the packet.  The table keeps it with the topic: a packet that carries
+   topic and alias binds the alias whether its message is authorised or not [MQTT-3.3.2.3.4], and a packet that names
+   its topic through the alias gets the verdict of THAT topic (the [auth] of an alias-only packet says nothing) *)
+Fixpoint tlookup2 (a : N) (tbl : list (N * (topic * bool))) : option (topic * bool) :=
+  match tbl with [] => None | (a', x) :: r => if a =? a' then Some x else tlookup2 a r end.
+
+Definition rx_step (maxrx : N) (tbl : list (N * (topic * bool))) (p : wpkt) (auth : bool)
+  : list (N * (topic * bool)) * rxout :=
   match walias p with
   | None =>
       match wtopic p with
@@ -66,15 +71,15 @@ Definition rx_step (maxrx : N) (tbl : list (N * topic)) (p : wpkt) (auth : bool)
   | Some a =>
       if (a =? 0) || (maxrx <? a) then (tbl, RTerminate) else
       match wtopic p with
-      | None => match tlookup a tbl with
-                | Some t => (tbl, RRoute t)
+      | None => match tlookup2 a tbl with
+                | Some (t, au) => (tbl, if au then RRoute t else RDrop)
                 | None => (tbl, RTerminate)
                 end
-      | Some t => if auth then ((a, t) :: tbl, RRoute t) else (tbl, RDrop)
+      | Some t => ((a, (t, auth)) :: tbl, if auth then RRoute t else RDrop)
       end
   end.
 
-Fixpoint rx_run (maxrx : N) (tbl : list (N * topic)) (ps : list (wpkt * bool)) : list rxout :=
+Fixpoint rx_run (maxrx : N) (tbl : list (N * (topic * bool))) (ps : list (wpkt * bool)) : list rxout :=
   match ps with
   | [] => []
   | (p, au) :: r =>
